@@ -25,6 +25,39 @@ def _only_atom(e, pname):
     return e[0] == "param" and e[2] == pname
 
 
+def _helper_clamps(g):
+    """'clamped-nan-safe' | 'clamped' | None for a helper f64 -> f64: on every path it returns a
+    constant of [0, 1] or clamp(param, 0.0, 1.0) (NaN-safe when that path excludes NaN, or
+    max / min are used)"""
+    gs = Sym(g)
+    p1 = ("param", 1, g.local_name(1))
+    ok, nan_safe = True, True
+    defs = g.defs().get(0, [])
+    if not defs:
+        return None
+    for (bb, j, rv, whole) in defs:
+        r = gs.rvalue(rv, bb, (bb, j))
+        if r[0] == "const" and isinstance(r[1], float) and 0.0 <= r[1] <= 1.0:
+            continue
+        if r[0] in ("call", "callat"):
+            nm = r[1] if r[0] == "call" else r[2]
+            args = r[2] if r[0] == "call" else r[3]
+            if nm == "clamp" and len(args) == 3 and args[0] == p1 and args[1] == ("const", 0.0, "f64") \
+                    and args[2] == ("const", 1.0, "f64"):
+                facts = gs.facts_at(bb)
+                if not any(cc[0] in ("call", "callat") and (cc[1] if cc[0] == "call" else cc[2]) == "is_nan"
+                           and v is False for cc, v in facts):
+                    nan_safe = False
+                continue
+            if nm == "min" and len(args) == 2 and args[1] == ("const", 1.0, "f64") and \
+                    args[0][0] in ("call", "callat") and (args[0][1] if args[0][0] == "call" else args[0][2]) == "max":
+                continue
+        ok = False
+    if not ok:
+        return None
+    return "clamped-nan-safe" if nan_safe else "clamped"
+
+
 def box_variants(f, sym):
     """the CropBox aggregates of f with computed margins, one variant per consistent choice of
     the definitions of the multi-definition locals they depend on (tuples assigned in the
@@ -101,11 +134,24 @@ def rules(rep, prog):
     variants = box_variants(f, sym)
     rep.floor(r_axis, "paths to a CropBox", len(variants), 2)
 
-    def cent_uses(e):
+    nan_through = []        # centering components that reach the box through a NaN-preserving clamp
+
+    def cent_uses(e, F=()):
         """[(component index, clamped?)] of the uses of the `centering` parameter in e"""
         out = []
 
-        def walk(x, clamped):
+        def nan_excluded(x):
+            for (cc, v) in F:
+                if cc[0] in ("call", "callat") and (cc[1] if cc[0] == "call" else cc[2]) == "is_nan" \
+                        and v is False and (cc[2] if cc[0] == "call" else cc[3])[0] == x:
+                    return True
+                # x == x / x >= c / x <= c taken as true: all false for NaN
+                if cc[0] == "bin" and v is True and cc[1] in ("Eq", "Ge", "Le", "Gt", "Lt") and \
+                        x in (cc[2], cc[3]):
+                    return True
+            return False
+
+        def walk(x, clamped, nan_safe=False):
             if not isinstance(x, tuple) or not x:
                 return
             if x[0] in ("call", "callat"):
@@ -113,7 +159,32 @@ def rules(rep, prog):
                 args = x[2] if x[0] == "call" else x[3]
                 if nm == "clamp" and len(args) == 3 and args[1] == ("const", 0.0, "f64") \
                         and args[2] == ("const", 1.0, "f64"):
-                    walk(args[0], True)
+                    a0 = args[0]
+                    if a0[0] == "field" and str(a0[2]).isdigit() and re.search(r"\bcentering\b", fmt(a0[1])) \
+                            and not nan_safe and not nan_excluded(a0):
+                        nan_through.append(int(str(a0[2])))
+                    walk(a0, True, nan_safe)
+                    return
+                if nm in ("max", "min") and len(args) == 2:
+                    # f64::max / f64::min return the other operand for NaN
+                    for a in args:
+                        walk(a, clamped, True)
+                    return
+                rid = x[4] if x[0] == "callat" else x[3]
+                g = prog.fns.get(rid) if isinstance(rid, str) else None
+                if g is not None and g.kind != "closure" and g.arg_count == 1 and len(args) == 1 and \
+                        (g.d.get("output") or "") == "f64":
+                    # a crate-local helper applied to the component: what it returns on each path
+                    verdict = _helper_clamps(g)
+                    if verdict == "clamped-nan-safe":
+                        walk(args[0], True, True)
+                    elif verdict == "clamped":
+                        a0 = args[0]
+                        if a0[0] == "field" and str(a0[2]).isdigit() and not nan_excluded(a0):
+                            nan_through.append(int(str(a0[2])))
+                        walk(a0, True, nan_safe)
+                    else:
+                        walk(args[0], None, nan_safe)       # not understood: undecided
                     return
             if x[0] == "field" and str(x[2]).isdigit() and re.search(r"\bcentering\b", fmt(x[1])):
                 # the outermost numeric projection of something derived from the parameter:
@@ -122,7 +193,7 @@ def rules(rep, prog):
                 return
             for y in x:
                 if isinstance(y, tuple):
-                    walk(y, clamped)
+                    walk(y, clamped, nan_safe)
         walk(e, False)
         return out
 
@@ -135,7 +206,7 @@ def rules(rep, prog):
             rep.ok(r_axis, "whole-source" + tag, loc, "full source")
             rep.ok(r_span, "path" + tag, loc, "full source")
             continue
-        lu, tu = cent_uses(ex["left"]), cent_uses(ex["top"])
+        lu, tu = cent_uses(ex["left"], F), cent_uses(ex["top"], F)
         bad_l = [i for i, _ in lu if i != 0] or mentions(ex["left"], "src_height")
         bad_t = [i for i, _ in tu if i != 1] or mentions(ex["top"], "src_width")
         if bad_l and not mentions(ex["left"], "src_width"):
@@ -151,8 +222,12 @@ def rules(rep, prog):
                 fmt(ex["top"])[:140], sorted({i for i, _ in tu})))
         else:
             rep.ok(r_axis, "top" + tag, loc, fmt(ex["top"])[:100])
-        raw = [i for i, c in lu + tu if not c]
-        if raw:
+        raw = [i for i, c in lu + tu if c is False]
+        unknown = [i for i, c in lu + tu if c is None]
+        if unknown and not raw:
+            rep.unk(r_clamp, "centering" + tag, loc, "component %s of the centering goes through a helper "
+                    "that is not understood" % sorted(set(unknown)))
+        elif raw:
             rep.bad(r_clamp, "centering" + tag, loc, "component %s of the caller's centering scales a "
                     "margin without clamp(0.0, 1.0): a value outside [0, 1] moves the box out of the "
                     "source (fit_src_into_dst_size and SrcCropping::FitIntoDestination are public, "
@@ -186,6 +261,20 @@ def rules(rep, prog):
         else:
             rep.bad(r_pl, "args", c.at, "fit_src_into_dst_size(%s), expected (%s)" % (
                 ", ".join(a), ", ".join(want)))
+    rep.rule("C15.nan", "a NaN component of the caller's centering does not reach the crop box: "
+             "f64::clamp returns NaN for NaN, the origin of the box becomes NaN, the crop validator "
+             "rejects it and the resize fails with a cropping error although FitIntoDestination was "
+             "requested (the component must pass f64::max / f64::min, which drop NaN, or a branch "
+             "that excludes NaN: is_nan, or a comparison taken as true)")
+    if nan_through:
+        for k in sorted(set(nan_through)):
+            rep.bad("C15.nan", "centering.%d|clamp" % k, f.loc,
+                    "centering.%d reaches the box through clamp(0.0, 1.0) only: "
+                    "fit_into_destination(Some((NaN, ..))) makes the crop origin NaN and the resize "
+                    "returns SrcCroppingError(PositionIsOutOfImageBoundaries)" % k)
+    else:
+        rep.ok("C15.nan", "centering", f.loc, "no NaN-preserving route from the centering to the box")
+
 
 
 def _ratio_side(e):
@@ -273,12 +362,55 @@ def inside(rep, prog, rule):
     rep.floor(rule, "computed crop dimensions", n, 2)
 
 
+def origin_strict(rep, prog, rule):
+    """the fitted origin stays strictly inside the source"""
+    rep.rule(rule, "the crop validator demands left < width and top < height strictly; "
+             "fit_src_into_dst_size computes the origin as fl(fl(dim - crop) * centering). The "
+             "difference rounds onto dim itself when the crop extent is below half an ulp of dim, "
+             "and the crop extent (dw / dh) * h has no lower bound above 2^-32 while half an ulp of "
+             "a u32 dimension reaches 2^-22: for a source of 2^27 x 1, a destination of 1 x 2^27 and "
+             "centering 1.0 the computed left equals the width and the resize fails with a cropping "
+             "error. Only this recognised form of the origin is judged (violation); an origin that is "
+             "clamped or computed otherwise is undecided")
+    f = prog.fn_by_name("crop_box::CropBox::fit_src_into_dst_size")
+    rep.touch(f)
+    sym = Sym(f)
+    seen = set()
+    n = 0
+    for (ex, F, loc) in box_variants(f, sym):
+        for nm, dim, crop in (("left", "src_width", "crop_width"), ("top", "src_height", "crop_height")):
+            e = ex[nm]
+            while e[0] == "cast":
+                e = e[2]
+            if e[0] == "const":
+                continue
+            key = "%s|rounds-onto-border" % nm
+            if key in seen:
+                continue
+            n += 1
+            if e[0] == "bin" and e[1] == "Mul":
+                diffs = [x for x in (e[2], e[3]) if x[0] == "bin" and x[1] == "Sub" and _only_atom(x[2], dim)]
+                if diffs and ("Mul" in fmt(diffs[0][3]) or "Div" in fmt(diffs[0][3])):
+                    seen.add(key)
+                    rep.bad(rule, key, loc,
+                            "%s = %s: the difference can round to the source dimension itself (crop "
+                            "extent below half an ulp of it), the validator's strict `%s < dimension` "
+                            "then rejects the box (2^27 x 1 -> 1 x 2^27, centering 1.0)" % (nm, fmt(e)[:110], nm))
+                    continue
+                if diffs:
+                    continue        # dim - dim: the full-span axis, origin 0
+            seen.add(key + "|unk")
+            rep.unk(rule, nm, loc, "%s = %s" % (nm, fmt(e)[:110]))
+    rep.floor(rule, "fitted origins", n, 2)
+
+
 def run(rep, tier):
     cfgs = ["x86"] if tier == "quick" else ["x86", "arm", "wasm"]
     for cfg, prog in programs(cfgs):
         rep.set_cfg(cfg)
         rep.call(rules, rep, prog)
         rep.call(inside, rep, prog, "C15.inside")
+        rep.call(origin_strict, rep, prog, "C15.origin-strict")
         rep.call(formulas.fit_formula, rep, prog, "C15.formula")
         # "so the resize never fails with a cropping error": the fitted box is placed with
         # left = fl(w - cw); it passes the validator because fl(left + cw) <= w is what the validator
